@@ -17,6 +17,7 @@ disagreement into a replayable failing input.
 import sys, os, ast, json
 from common import *
 import isa, oracle_spec
+import c03_extra as hx
 from amoco.arch import core as acore
 from amoco.arch.core import ispec, instruction, DecodeError, InstructionError
 from crysp.bits import Bits
@@ -364,7 +365,7 @@ def main(tier):
     sreq = [{"op": "spec.build", "fmt": f, "keysA": ["mnemonic"], "keysF": []} for f, _ in syn]
     sans = drv.ask_many(sreq)
     dec_cases = []
-    import logging
+    good_syn = []              # synthetic specs on which code, model and documentation agree (pool of phase H)
     for (f, valid), mod in zip(syn, sans):
         ck.count("S.formats")
         try:
@@ -396,6 +397,7 @@ def main(tier):
         elif d:
             corr_broken.append(("synthetic-build", {"format": f, "diff": d}, rf, mod))
         else:
+            good_syn.append((["synthetic", f], s))
             for _ in range(2 if quick else 4):
                 e = r.choice([1, -1]) if s.size != 0 else 1
                 bs = isa.directed_bytes(s, e, r) if r.random() < 0.8 else bytes(r.getrandbits(8) for _ in range(r.randrange(0, 10)))
@@ -423,6 +425,134 @@ def main(tier):
             corr_broken.append(("synthetic-decode", {"format": f, "bytes": bs.hex(), "endian": e}, real, modelv))
     if syn:
         ck.sample({"S": [syn[0][0], sans[0]]})
+
+    # ---- H: decode histories ----------------------------------------------------------------
+    # the documented meaning of decode is a function of (format, bytes, endian): run related decodes back
+    # to back (c03_extra.gen_history) and judge every step by the history-free oracle.
+    for f, s in good_syn:
+        s.hook = None
+    modidx = {}
+    for mn, m in mods.items():
+        for k, s in enumerate(m.ISPECS):
+            modidx[(mn, id(s))] = k
+    ship_pool = [(["shipped", mn, modidx[(mn, id(s))], s.format], s) for mn, s in pick]
+    means = {}
+
+    def mean_of(fmt):
+        if fmt not in means:
+            try:
+                m = oracle_spec.meaning(fmt)
+                means[fmt] = m if m["ok"] else None
+            except oracle_spec.FormatError:
+                means[fmt] = None
+        return means[fmt]
+    pools = []
+    for pl in (ship_pool, good_syn):
+        if pl:
+            bsz = {}
+            for k, (l, s) in enumerate(pl):
+                bsz.setdefault(s.fix.size, []).append(k)
+            pools.append((pl, bsz))
+    nhist = (1500 if quick else 100000) if pools else 0
+    hists = []
+    for _ in range(nhist):
+        pl, bsz = pools[0] if (len(pools) == 1 or r.random() < 0.6) else pools[1]
+        hists.append(hx.gen_history(r, pl, bsz))
+    flush = ispec("24<[ {a5} x(16) ]", mnemonic="F")
+    flush.hook = None
+    keyso = lambda x: (not x[0],)
+
+    def keys_of(l, s):
+        rf = rfmap.get(id(s))
+        return (rf["keysA"], rf["keysF"]) if rf is not None else (["mnemonic"], [])
+
+    def run_step(st):
+        try:
+            return real_decode(st[1], st[2], st[3])
+        except Exception as ex:
+            return "raise:" + type(ex).__name__
+
+    def isolated(st):
+        run_step((None, flush, b"\x5a\x5a\x5a\x5a", 1))
+        run_step((None, flush, b"\x01\x02\xa5", 1))
+        return run_step(st)
+
+    def documented(st):
+        m = mean_of(st[1].format)
+        if m is None:
+            return "n/a"
+        exp = oracle_spec.decode(m, st[2], st[3])
+        return None if exp is None else sorted([(t, k, canon_oracle(v)) for (t, k, v) in exp], key=keyso)
+
+    def show(steps):
+        return [[st[0], st[2].hex(), st[3]] for st in steps]
+
+    last = None
+    hreq, hkeys, hwhere = [], {}, []
+    for kind, steps in hists:
+        reals = [run_step(st) for st in steps]          # back to back: nothing of amoco runs in between
+        exps = [documented(st) for st in steps]
+        ck.count("H.histories")
+        ck.count("H.kind." + kind)
+        ck.case(("H", tuple((st[1].format, st[2], st[3]) for st in steps)), nontrivial=hx.distinguishing(steps, exps))
+        prev = last
+        for k, (st, real, exp) in enumerate(zip(steps, reals, exps)):
+            ck.count("H.steps")
+            ck.count("H.step." + ("accept" if isinstance(real, list) else "reject"))
+            rel = hx.relation(prev, st)
+            ck.count("H.rel." + rel)
+            prev = st
+            case = {"history-kind": kind, "history": show(steps), "failing_step": k, "relation_to_previous_decode": rel}
+            if exp == "n/a":
+                ck.count("H.step.documentation-does-not-judge")
+                iso = isolated(st)
+                run_step(st)
+                if iso != real:
+                    ck.report("C03:decode-history:%s" % rel,
+                              "decode of %s (endian %d) by %r delivers %r right after the decode of %s, but %r in isolation: the outcome depends on what was decoded before"
+                              % (st[2].hex(), st[3], st[1].format, real, show(steps[:k])[-1:] or "the previous history", iso),
+                              "oracle", "Amoco.Spec.decode_accepts_iff / decode_fields (decode is a function of format, bytes, endian)",
+                              case=case, real=real, expected=iso)
+                    break
+                continue
+            if real != exp:
+                iso = isolated(st)
+                if iso == exp:
+                    ck.report("C03:decode-history:%s" % rel,
+                              "decode of %s (endian %d) by %r delivers %r right after the decode of %s; documented (and delivered in isolation) %r"
+                              % (st[2].hex(), st[3], st[1].format, real, show(steps[:k])[-1:] or "the previous history", exp),
+                              "oracle", "Amoco.Spec.decode_accepts_iff / decode_fields (decode is a function of format, bytes, endian)",
+                              case=case, real=real, expected=exp)
+                elif st[0][0] == "shipped":
+                    ck.report("C03:decode:%s:%s" % (st[0][1], st[1].format), "decode of %s (endian %d) by %r: delivered %r, documented %r" % (st[2].hex(), st[3], st[1].format, real, exp),
+                              "oracle", "Amoco.Spec.decode_accepts_iff / decode_fields", case={"module": st[0][1], "format": st[1].format, "bytes": st[2].hex(), "endian": st[3]},
+                              real=real, expected=exp)
+                else:
+                    ck.report("C03:synthetic-decode", "decode of %s (endian %d) by synthetic %r: delivered %r, documented %r" % (st[2].hex(), st[3], st[1].format, real, exp),
+                              "oracle", "Amoco.Spec.decode_fields", case={"format": st[1].format, "bytes": st[2].hex(), "endian": st[3]}, real=real, expected=exp)
+                break
+            key = (st[1].format, tuple(map(tuple, keys_of(*st[:2]))), st[2], st[3])
+            if key not in hkeys:
+                hkeys[key] = real
+                ka, kf = keys_of(*st[:2])
+                hreq.append({"op": "spec.decode", "fmt": st[1].format, "keysA": ka, "keysF": kf, "bytes": list(st[2]), "be": st[3] == -1})
+                hwhere.append((st, real))
+        last = steps[-1]
+    # the model's decode (the function the theorems are about) on every distinct step of the histories
+    hcap = 2500 if quick else 100000
+    if len(hreq) > hcap:
+        sel = sorted(r.sample(range(len(hreq)), hcap))
+        hreq, hwhere = [hreq[k] for k in sel], [hwhere[k] for k in sel]
+    for (st, real), a in zip(hwhere, drv.ask_many(hreq)):
+        if isinstance(a, dict) and "err" in a:
+            ck.count("H.model-outside-fragment")
+            continue
+        ck.count("H.model-compared")
+        modelv = None if a is None else sorted([(t, k, v) for (t, k, v) in a], key=keyso)
+        if modelv != real:
+            corr_broken.append(("history-decode:%s" % st[1].format, {"label": st[0], "bytes": st[2].hex(), "endian": st[3]}, real, modelv))
+    if hists:
+        ck.sample({"H": [hists[0][0], show(hists[0][1])]})
     drv.close()
 
     # ---- broken ties without failing input --------------------------------------------------
@@ -442,7 +572,53 @@ def main(tier):
                    "compiled Lean driver (evaluation of the model definitions)"]
     return ck.finish("T: every registered ispec of every importable spec module (distinct by module+format+kargs); "
                      "M: every literal format of x86/x64 spec sources; C: spec-directed/mutated/truncated/random words, "
-                     "non-trivial = accepted by the real spec; S: random grammar-admitted formats, non-trivial = GrammarOK")
+                     "non-trivial = accepted by the real spec; S: random grammar-admitted formats, non-trivial = GrammarOK; "
+                     "H: decode histories run back to back on shipped and synthetic specs (same bytes under the other fetch "
+                     "endianness in both orders, another spec of the same / of a different bit length on the same bytes or an "
+                     "equal copy, shared heads, different variable-length tails, byte-reversed heads, repeats, random walks over "
+                     "a small pool of specs x byte strings x endiannesses), every step judged by the history-free documentation "
+                     "oracle (and by the isolated decode where the documentation does not judge), non-trivial = the documented "
+                     "outcomes of the steps are not all the same reject")
+
+
+def replay(path):
+    """./check C03 --replay <file>: re-run a recorded decode history on the current tree."""
+    rec = json.load(open(path))
+    case = rec.get("case") or {}
+    if "history" not in case:
+        print(json.dumps(rec, indent=1)[:20000])
+        print("(no automatic replay for this kind of C03 case)")
+        return 0
+    import importlib
+    specs, bad = {}, 0
+    for k, (label, hexbytes, e) in enumerate(case["history"]):
+        key = json.dumps(label)
+        if key not in specs:
+            if label[0] == "shipped":
+                s = importlib.import_module(label[1]).ISPECS[label[2]]
+                assert s.format == label[3], "ISPECS[%d] of %s is now %r" % (label[2], label[1], s.format)
+            else:
+                s = ispec(label[1], mnemonic="X")
+                s.hook = None
+            specs[key] = s
+        s = specs[key]
+        bs = bytes.fromhex(hexbytes)
+        try:
+            real = real_decode(s, bs, e)
+        except Exception as ex:
+            real = "raise:" + type(ex).__name__
+        try:
+            m = oracle_spec.meaning(s.format)
+            exp = oracle_spec.decode(m, bs, e) if m["ok"] else "n/a"
+        except oracle_spec.FormatError:
+            exp = "n/a"
+        if exp != "n/a":
+            exp = None if exp is None else sorted([(t, n, canon_oracle(v)) for (t, n, v) in exp], key=lambda x: (not x[0],))
+        ok = exp == "n/a" or exp == real
+        bad += not ok
+        print("step %d: %r decode(%s, endian=%d) -> %r   documented %r   %s" % (k, s.format, hexbytes, e, real, exp, "ok" if ok else "WRONG"))
+    print("REPLAY C03: %s" % ("violation reproduced" if bad else "history decodes as documented on this tree"))
+    return 1 if bad else 0
 
 
 if __name__ == "__main__":
